@@ -109,15 +109,17 @@ fn main() {
             "C02" => {
                 cx.rep.require(c(&cx, "c02_pairs_of_representations") >= 100, "fewer than 100 (Self, Other) pairs judged");
                 cx.rep.require(c(&cx, "c02_cross_representation_pairs") >= 60, "fewer than 60 cross-representation pairs");
+                cx.rep.require(c(&cx, "c02_other_is_degenerate_bottom") >= 500, "fewer than 500 merges of a degenerate-size bottom representation (zero-length array / empty container nested as a value)");
                 cx.rep.require(c(&cx, "c02_flag_true") >= 10_000 && c(&cx, "c02_flag_false") >= 10_000, "fewer than 10 000 merges with each flag value");
             }
             "C03" => {
-                cx.rep.require(c(&cx, "c03_pairs_of_representations") >= 250, "fewer than 250 (Self, Other) comparison pairs");
+                cx.rep.require(c(&cx, "c03_pairs_of_representations") >= 400, "fewer than 400 (Self, Other) comparison pairs");
                 cx.rep.require(c(&cx, "c03_cross_representation_pairs") >= 150, "fewer than 150 cross-representation comparison pairs");
                 cx.rep.require(c(&cx, "c03_incomparable_pairs") >= 5_000, "fewer than 5 000 incomparable pairs");
                 cx.rep.require(c(&cx, "c03_ordered_pairs") >= 5_000, "fewer than 5 000 strictly ordered pairs");
                 cx.rep.require(c(&cx, "c03_bottoms_seen") >= 100 && c(&cx, "c03_tops_seen") >= 20, "too few bottom / top values seen");
                 cx.rep.require(c(&cx, "c03_default_families") >= 50, "Default checked for fewer than 50 types");
+                cx.rep.require(c(&cx, "c03_degenerate_bottom_representations") >= 20, "fewer than 20 types whose bottom is a degenerate-size representation (zero-length array, None, empty container) judged by is_bot");
             }
             "C04" => {
                 cx.rep.require(c(&cx, "c04_families") >= 26, "not every family ran its histories");
